@@ -118,11 +118,32 @@ conv_set!(aes256_from_enc_val, aes256_from_enc_ref, aes256_dec_from_enc, aes256_
 // n blocks, n a constant per harness; the block index under test i is SYMBOLIC: output block i of the multi-block call
 // equals the single-block call on input block i (one reference computation: the pairwise consistency constraints of the
 // uninterpreted round body grow with the square of the number of applications, so the reference is computed for block i
-// only, not for all n).  In-place variant: blocks carved out of a byte buffer at a symbolic offset 0..=15 with guard
+// only, not for all n, and the round bodies are two-phase uninterpreted functions: uf.rs uf1ab!).  In-place variant: blocks carved out of a byte buffer at a symbolic offset 0..=15 with guard
 // bytes before and after.  b2b variant: separate input unchanged.
+macro_rules! ni_ab_harness {
+    ($name:ident, $bytes:expr, $unwind:expr, |$inp:ident| $body:block) => {
+        verif_harness! {
+            name: $name,
+            bytes: $bytes,
+            unwind: $unwind,
+            stubs: [
+                (core::arch::x86_64::__cpuid, ni_model::m_cpuid),
+                (core::arch::x86_64::__cpuid_count, ni_model::m_cpuid_count),
+                (core::arch::x86_64::_xgetbv, ni_model::m_xgetbv),
+                (core::arch::x86_64::_mm_aesenc_si128, ni_model::mab_aesenc),
+                (core::arch::x86_64::_mm_aesenclast_si128, ni_model::mab_aesenclast),
+                (core::arch::x86_64::_mm_aesdec_si128, ni_model::mab_aesdec),
+                (core::arch::x86_64::_mm_aesdeclast_si128, ni_model::mab_aesdeclast),
+                (core::arch::x86_64::_mm_aesimc_si128, ni_model::m_aesimc),
+                (core::arch::x86_64::_mm_aeskeygenassist_si128, ni_model::m_aeskeygenassist)
+            ],
+            prop: |$inp| $body
+        }
+    };
+}
 macro_rules! ni_batch {
     ($name:ident, $ty:ty, $n:expr, $dec:expr, $b2b:expr) => {
-        ni_harness!($name, core::mem::size_of::<$ty>() + 16 * $n + 2, 700, |inp| {
+        ni_ab_harness!($name, core::mem::size_of::<$ty>() + 16 * $n + 2, 700, |inp| {
             ni_model::set_cpu(true);
             const N: usize = $n;
             const S: usize = core::mem::size_of::<$ty>();
@@ -134,10 +155,26 @@ macro_rules! ni_batch {
             vassume!(i < N);
             let off = (inp[S + 16 * N + 1] & 15) as usize;
             // reference: single-block call on block i
-            let xi: [u8; 16] = take(inp, S + 16 * i);
+            // block i selected branch-free (a symbolic index into the 1 kB input array would put the whole array into the
+            // array theory)
+            let mut xi = [0u8; 16];
+            let mut j = 0;
+            while j < N {
+                let m = 0u8.wrapping_sub((j == i) as u8);
+                let xj: [u8; 16] = take(inp, S + 16 * j);
+                let mut k = 0;
+                while k < 16 {
+                    xi[k] |= xj[k] & m;
+                    k += 1;
+                }
+                j += 1;
+            }
             let mut rb: Block<$ty> = xi.into();
             if $dec { c.decrypt_block(&mut rb) } else { c.encrypt_block(&mut rb) };
             let r = rb.0;
+            // the reference's round-body applications are logged (phase A); from here on every application is constrained
+            // against that log only (phase B)
+            ni_model::ab_phase_b();
             let mut ok = true;
             if !$b2b {
                 // in-place batch inside a larger buffer at offset `off`, 0xC3 guards around
@@ -158,10 +195,16 @@ macro_rules! ni_batch {
                     }
                     j += 1;
                 }
-                j = 0;
-                while j < 16 {
-                    ok &= buf[off + 16 * i + j] == r[j];
-                    j += 1;
+                // output block i == reference (selected branch-free over the lanes; `off` stays a symbolic index)
+                let mut lane = 0;
+                while lane < N {
+                    let sel = lane == i;
+                    j = 0;
+                    while j < 16 {
+                        ok &= !sel | (buf[off + 16 * lane + j] == r[j]);
+                        j += 1;
+                    }
+                    lane += 1;
                 }
             } else {
                 // b2b batch: separate input unchanged, output block i as per block, nothing else to write
@@ -179,7 +222,11 @@ macro_rules! ni_batch {
                     ok &= ins[j].0 == take::<16>(inp, S + 16 * j);
                     j += 1;
                 }
-                ok &= outs[i].0 == r;
+                j = 0;
+                while j < N {
+                    ok &= (j != i) | (outs[j].0 == r);
+                    j += 1;
+                }
             }
             Some(ok)
         });
